@@ -468,6 +468,9 @@ pub fn sweep(r: &mut Rng, x: &mut Exec, sink: &mut Sink, b: &Built, open_ev: &Va
     let mut extra: Vec<Vec<u8>> = Vec::new();
     for n in qnames.iter().take(4) { if n.len() > 1 { extra.push(n[..n.len() - 1].to_vec()); } let mut e = n.clone(); e.push(b'x'); extra.push(e); }
     extra.push(b".nope".to_vec());
+    for n in [&b".debug_info"[..], b".debug_str", b".zdebug_info", b".comment", b".note.gnu.build-id", b".gnu.hash", b".data", b".symtab"] {
+        if r.chance(1, 3) { extra.push(n.to_vec()); }
+    }
     for n in qnames.iter().chain(extra.iter()) {
         let mut o = q("shdr_by_name"); o["qname"] = bytes_val(n); sink.run(x, &o);
     }
@@ -624,11 +627,53 @@ pub fn stream_family(r: &mut Rng, n: u64, x: &mut Exec, sink: &mut Sink, mode: &
         if mode == "plain" || mode == "big" {
             let evs = sink.run(x, &json!({"op":"open","es":es,"fileslot":"file"}));
             if let Some(ev) = evs.first() { sweep(r, x, sink, &b, ev, "q", true); }
+            sink.record = Some(Vec::new());
             let evs = sink.run(x, &json!({"op":"sopen","es":es,"fileslot":"file","reader":reader_spec(r, true)}));
             if let Some(ev) = evs.first() {
                 sweep(r, x, sink, &b, ev, "sq", false);
+            }
+            let script: Vec<Value> = sink.record.take().unwrap_or_default();
+            if let Some(ev) = evs.first() {
                 // again, in another order and with repetition: cached ranges must give the same answers
                 if r.chance(1, 2) { sweep(r, x, sink, &b, ev, "sq", true); }
+            }
+            // cache interplay: pre-load the first range of a multi-range accessor, then caller-made headers that
+            // designate large overlapping ranges sharing a start or an end, then the accessor (twice)
+            if let Some(ev) = evs.first() {
+                if ev["res"]["out"] == "ok" {
+                    let empty = vec![];
+                    let ents = ev["res"]["sh"]["ents"].as_array().unwrap_or(&empty).clone();
+                    let flen = b.bytes.len() as u64;
+                    for h in ents.iter() {
+                        let ty = rd_w(&h["sh_type"]) as u32;
+                        let acc = match ty { SHT_SYMTAB => "symbol_table", SHT_DYNSYM => "dynamic_symbol_table", SHT_GNU_VERSYM => "symbol_version_table", _ => continue };
+                        if !r.chance(2, 3) { continue; }
+                        let hsz = rd_w(&h["sh_size"]).min(flen);
+                        let mut prelude: Vec<Value> = vec![json!({"op":"sq","name":"section_data","shdr":h.clone()})];
+                        for (off, size) in [(0u64, flen), (1, flen - 1), (0, flen - 1), (flen / 2, flen - flen / 2), (0, flen / 2),
+                                            (0, flen - hsz), (0, (flen - hsz).saturating_sub(1)), (hsz.min(flen), flen - hsz.min(flen))] {
+                            if r.chance(1, 2) { continue; }
+                            let mut hh = h.clone(); hh["sh_type"] = w4(1); hh["sh_flags"] = w8(0); hh["sh_offset"] = w8(off); hh["sh_size"] = w8(size);
+                            prelude.push(json!({"op":"sq","name":"section_data","shdr":hh}));
+                        }
+                        for i in (1..prelude.len()).rev() { let j = r.below(i as u64 + 1) as usize; prelude.swap(i, j); }
+                        for o in &prelude { sink.run(x, o); }
+                        let mut q = json!({"op":"sq","name":acc});
+                        if acc == "symbol_version_table" { q["qs"] = json!([["req", w8(1)], ["def", w8(1)]]); }
+                        sink.run(x, &q); sink.run(x, &q);
+                    }
+                }
+            }
+            // the same queries in random orders on fresh stream objects (any order, any number of times)
+            if script.len() > 2 {
+                for _ in 0..2 {
+                    let mut o = script[0].clone();
+                    o["reader"] = reader_spec(r, true);
+                    sink.run(x, &o);
+                    let mut idx: Vec<usize> = (1..script.len()).collect();
+                    for i in (1..idx.len()).rev() { let j = r.below(i as u64 + 1) as usize; idx.swap(i, j); }
+                    for i in idx.iter().take(40) { sink.run(x, &script[*i]); }
+                }
             }
             continue;
         }
@@ -745,7 +790,15 @@ pub fn locate_family(r: &mut Rng, n: u64, x: &mut Exec, sink: &mut Sink) {
         let mut note = vec![format!("nsec={nsec:#x} nseg={nseg:#x} ndx={ndx:#x}")];
         // defects that must make open fail / absent tables
         let fidx = |b: &Built, l: &str| b.fields.iter().position(|f| f.2 == l);
-        match r.below(10) {
+        match r.below(13) {
+            10 if sp.ext_shnum && class == 64 => { if let Some(i) = fidx(&b, "sh0.sh_size") { let (o, _w, _) = b.fields[i].clone(); let hi = if little { o + 4 } else { o + 3 }; b.bytes[hi] = *r.pick(&[1u8, 2, 0x80]); note.push("sh0.sh_size+=2^32k".into()); } }
+            11 | 12 if nseg > 0 => {
+                // PN_XNUM while the file has no section header table: shdr[0] is read at e_shoff = 0
+                for (l, v) in [("e_shoff", 0u64), ("e_shnum", 0), ("e_phnum", 0xffff), ("e_shentsize", *r.pick(&[0u64, 1, 39, 40, 41, 63, 64, 65, 0xffff]))] {
+                    if let Some(i) = fidx(&b, l) { let (o, w, _) = b.fields[i].clone(); let mut e = vec![]; put(&mut e, v, w, little); b.bytes[o..o + w].copy_from_slice(&e); }
+                }
+                note.push("pn_xnum_without_shdrs".into());
+            }
             0 => { if let Some(i) = fidx(&b, "e_shentsize") { let (o, w, _) = b.fields[i].clone(); let v = *r.pick(&[0u64, 39, 41, 63, 65, 40, 64, 0xffff]); let mut e = vec![]; put(&mut e, v, w, little); b.bytes[o..o + w].copy_from_slice(&e); note.push(format!("e_shentsize={v}")); } }
             1 => { if let Some(i) = fidx(&b, "e_phentsize") { let (o, w, _) = b.fields[i].clone(); let v = *r.pick(&[0u64, 31, 33, 55, 57, 32, 56, 0xffff]); let mut e = vec![]; put(&mut e, v, w, little); b.bytes[o..o + w].copy_from_slice(&e); note.push(format!("e_phentsize={v}")); } }
             2 => { let k = r.range(1, 3) as usize; let l = b.bytes.len(); b.bytes.truncate(l - k.min(l)); note.push(format!("cut_tail={k}")); }
